@@ -24,8 +24,8 @@ ASSUMPTIONS = [
     "a call the plain function accepts but the wrapper rejects is C06's clause: counted, not judged here",
 ]
 SHARDS = {"quick": 12, "thorough": 14}
-FLOORS = {"quick": {"calls_compared": 6000, "twin_pairs_called": 300, "multi_process_histories": 40, "shelved_calls": 1000},
-          "thorough": {"calls_compared": 80000, "twin_pairs_called": 6000, "multi_process_histories": 300, "shelved_calls": 10000}}
+FLOORS = {"quick": {"calls_compared": 6000, "twin_pairs_called": 300, "multi_process_histories": 40, "shelved_calls": 1000, "histories_through_recached_wrappers": 25},
+          "thorough": {"calls_compared": 80000, "twin_pairs_called": 6000, "multi_process_histories": 300, "shelved_calls": 10000, "histories_through_recached_wrappers": 300}}
 
 
 def cases(tier, seed):
@@ -54,7 +54,10 @@ def run_case(case, ctx, with_ignore=False, judge=None):
     funcs, segs = memhist.build_case(rng, pool, with_ignore, nfuncs=5, ncalls=rng.choice([12, 20, 30]), nproc=nproc)
     d = harness.mkscratch("vjl-c02-")
     try:
-        outs = memhist.run_sessions(d, f"mh_{case['i']}", funcs, segs, compress=compress)
+        recache = rng.choice([None, None, None, "twice", "other-memory"])
+        if recache:
+            ctx.count("histories_through_recached_wrappers")
+        outs = memhist.run_sessions(d, f"mh_{case['i']}", funcs, segs, compress=compress, recache=recache)
         ctx.evaluated()
         if any(o[0] is None for o in outs):
             bad = next(o for o in outs if o[0] is None)
@@ -62,7 +65,7 @@ def run_case(case, ctx, with_ignore=False, judge=None):
             return
         if nproc > 1:
             ctx.count("multi_process_histories")
-        (judge or judge_c02)(ctx, funcs, segs, outs, dict(compress=compress, nproc=nproc))
+        (judge or judge_c02)(ctx, funcs, segs, outs, dict(compress=compress, nproc=nproc, recache=recache))
     finally:
         shutil.rmtree(d, ignore_errors=True)
 
